@@ -51,6 +51,8 @@ enum Pre {
     During,
     /// the SOURCE file's modification time changes while the migration runs (its bytes do not)
     Touch,
+    /// somebody renames ANOTHER valid store over the migration's temporary sibling while it is being filled
+    SwapTemp,
 }
 
 struct Case {
@@ -813,6 +815,36 @@ fn run_case(id: usize, c: &Case, root: &str, cli: Option<&str>, drops: &Drops) -
             }
         }));
     }
+    let swap_stop = Arc::new(AtomicBool::new(false));
+    let mut swapper = None;
+    if c.pre == Pre::SwapTemp {
+        // a foreign, perfectly valid version-3 store, ready to be renamed over the temporary sibling
+        let foreign = format!("{dir}/foreign.store");
+        {
+            let st = feoxdb::FeoxStore::builder().device_path(foreign.clone()).file_size(64 * 4096).build().expect("foreign store");
+            st.insert(b"not-from-the-source", b"foreign").expect("foreign insert");
+            st.flush().expect("foreign flush");
+            drop(st);
+        }
+        let (flag, stop, d) = (injected.clone(), swap_stop.clone(), dir.clone());
+        swapper = Some(std::thread::spawn(move || {
+            while !stop.load(Ordering::SeqCst) {
+                if let Ok(rd) = std::fs::read_dir(&d) {
+                    for e in rd.flatten() {
+                        let n = e.file_name().to_string_lossy().to_string();
+                        if n.starts_with('.') && n.contains("feox-migrate") && n.ends_with(".tmp")
+                            && e.metadata().map(|m| m.len() > 0).unwrap_or(false) {
+                            // let the copy get under way, then take the name over
+                            std::thread::sleep(std::time::Duration::from_millis(3));
+                            if std::fs::rename(&foreign, e.path()).is_ok() { flag.store(true, Ordering::SeqCst); }
+                            return;
+                        }
+                    }
+                }
+                std::thread::sleep(std::time::Duration::from_micros(200));
+            }
+        }));
+    }
     if c.pre == Pre::Touch {
         let (flag, p) = (injected.clone(), src_path.clone());
         feoxdb::verif::install(Box::new(move |_seq, ev| {
@@ -890,9 +922,12 @@ fn run_case(id: usize, c: &Case, root: &str, cli: Option<&str>, drops: &Drops) -
         feoxdb::verif::set_fault_fn(None);
         feoxdb::verif::force_sync(false);
     }
+    swap_stop.store(true, Ordering::SeqCst);
+    if let Some(h) = swapper { let _ = h.join(); }
+    let _ = std::fs::remove_file(format!("{dir}/foreign.store"));
     // ---- what is on the file system now
     let pre_eff = match c.pre {
-        Pre::During | Pre::Touch if !injected.load(Ordering::SeqCst) => Pre::None, // the call failed before it wrote anything
+        Pre::During | Pre::Touch | Pre::SwapTemp if !injected.load(Ordering::SeqCst) => Pre::None, // the call failed before it wrote anything / nothing was swapped
         p => p,
     };
     let after = list_dir(&dir);
@@ -901,12 +936,13 @@ fn run_case(id: usize, c: &Case, root: &str, cli: Option<&str>, drops: &Drops) -
     let src_same = src_now.len() == l0 && fnv(&src_now) == h0 && src_now == src.bytes;
     let dst_exists = std::fs::symlink_metadata(&dst_path).is_ok();
     let dst_bytes = if dst_exists { std::fs::read(&dst_path).unwrap_or_default() } else { Vec::new() };
-    let pre_same = pre_eff != Pre::None && pre_eff != Pre::Touch && dst_exists && dst_bytes == junk;
+    let pre_same = pre_eff != Pre::None && pre_eff != Pre::Touch && pre_eff != Pre::SwapTemp && dst_exists && dst_bytes == junk;
     let pre_name = match pre_eff {
         Pre::None => "none",
         Pre::Before => "before",
         Pre::During => "during",
         Pre::Touch => "touch",
+        Pre::SwapTemp => "swaptemp",
     };
 
     let mut ev: Vec<Value> = Vec::new();
@@ -1112,6 +1148,9 @@ pub fn main(args: &[String]) -> i32 {
             cases.push(Case { src: s.clone(), allow: true, pre: Pre::None, cli: false,
                 fault: Some((rng.random_range(0..14), rng.random_range(1..3))) });
         }
+        if s.large {
+            cases.push(Case { src: s.clone(), allow: true, pre: Pre::SwapTemp, cli: false, fault: None });
+        }
         if cli.is_some() && cli_done.insert(s.family) {
             cases.push(Case { src: s.clone(), allow: true, pre: Pre::None, cli: true, fault: None });
             if s.family == "synth" {
@@ -1127,6 +1166,7 @@ pub fn main(args: &[String]) -> i32 {
     let results: Vec<Mutex<Option<Outcome>>> = (0..cases.len()).map(|_| Mutex::new(None)).collect();
     let next = AtomicUsize::new(0);
     let alone = |c: &Case| c.pre == Pre::During || c.pre == Pre::Touch || c.fault.is_some();
+    // (SwapTemp cases watch their own directory only: they run in parallel with the others)
     let par: Vec<usize> = (0..cases.len()).filter(|i| !alone(&cases[*i])).collect();
     std::thread::scope(|sc| {
         for _ in 0..threads.max(1) {
